@@ -34,8 +34,14 @@ def run_complex_cases(cases, res, stratum):
             else:
                 x = fx.Fxp(None, s, nw, nf, **kw)
                 (x if c['route'] == 'call' else x.set_val)(val)
+            # a real number written by index into a complex array must leave the imaginary parts of the other elements alone
+            idxw = None
+            if len(zs) >= 2 and c['carrier'] != 'pycomplex':
+                y = fx.Fxp(val, s, nw, nf, **kw); before = np.asarray(y.get_val()).reshape(-1).tolist()
+                y[0] = 0.0; after = np.asarray(y.get_val()).reshape(-1).tolist()
+                idxw = (before[1:], after[1:], complex(after[0]), y.dtype)
             v = np.asarray(x.val).reshape(-1)
-            obs = {'re': [Fraction(float(t.real)) for t in v], 'im': [Fraction(float(t.imag)) for t in v], 'st': lib.status3(x),
+            obs = {'idxw': idxw, 're': [Fraction(float(t.real)) for t in v], 'im': [Fraction(float(t.imag)) for t in v], 'st': lib.status3(x),
                    'get': [(Fraction(float(t.real)), Fraction(float(t.imag))) for t in np.asarray(x.get_val()).reshape(-1)], 'dtype': x.dtype,
                    'parts': ([Fraction(float(t)) for t in np.asarray(x.real).reshape(-1)], [Fraction(float(t)) for t in np.asarray(x.imag).reshape(-1)])}
         except Exception as e:
@@ -61,6 +67,8 @@ def run_complex_cases(cases, res, stratum):
         back = [(Fraction(a) / Fraction(2) ** nf, Fraction(b) / Fraction(2) ** nf) for a, b in zip(wre, wim)]
         if obs['get'] != back or obs['parts'] != ([b[0] for b in back], [b[1] for b in back]):
             res.fail(c, 'C01: complex value read back (get_val / .real / .imag) is not code*2^-n_frac per component', expected=[(str(a), str(b)) for a, b in back], got=[(str(a), str(b)) for a, b in obs['get']]); continue
+        if obs['idxw'] is not None and (obs['idxw'][0] != obs['idxw'][1] or obs['idxw'][2] != 0j or not obs['idxw'][3].endswith('-complex')):
+            res.fail(c, 'C01: writing a real value by index into a complex array changed the values read back from the other elements (imaginary parts dropped)', expected=[str(t) for t in obs['idxw'][0]], got=[str(t) for t in obs['idxw'][1]]); continue
         if not obs['dtype'].endswith('-complex'):
             res.fail(c, 'C01: an object holding complex values does not report a complex dtype', expected='...-complex', got=obs['dtype']); continue
         kind, rd = outcome(outs[3 * i + 2])
